@@ -419,6 +419,15 @@ impl LexiconReader {
                 });
             }
 
+            if e.should_index() && e.right_id < 0 {
+                // only the left id may be negative (it marks entries that are not indexed)
+                return ctx.err(BuildFailure::InvalidFieldSize {
+                    actual: e.right_id as _,
+                    expected: self.max_left as _,
+                    field: "right_id",
+                });
+            }
+
             if e.right_id >= self.max_left {
                 return ctx.err(BuildFailure::InvalidFieldSize {
                     actual: e.right_id as _,
